@@ -12,6 +12,7 @@ import (
 	"go.lsp.dev/uri"
 
 	"github.com/juev/hledger-lsp/internal/analyzer"
+	"github.com/juev/hledger-lsp/internal/ast"
 	"github.com/juev/hledger-lsp/internal/cli"
 	"github.com/juev/hledger-lsp/internal/formatter"
 	"github.com/juev/hledger-lsp/internal/include"
@@ -369,7 +370,7 @@ func (s *Server) publishDiagnosticsVersion(ctx context.Context, docURI protocol.
 		return
 	}
 
-	diagnostics := s.analyze(content)
+	diagnostics := s.analyze(content, resolved)
 
 	for _, err := range loadErrors {
 		severity := protocol.DiagnosticSeverityError
@@ -402,7 +403,7 @@ func (s *Server) publishDiagnosticsVersion(ctx context.Context, docURI protocol.
 	s.publishIfLatest(ctx, docURI, version, diagnostics)
 }
 
-func (s *Server) analyze(content string) []protocol.Diagnostic {
+func (s *Server) analyze(content string, resolved *include.ResolvedJournal) []protocol.Diagnostic {
 	journal, parseErrs := parser.Parse(content)
 
 	diagnostics := make([]protocol.Diagnostic, 0, len(parseErrs))
@@ -428,6 +429,32 @@ func (s *Server) analyze(content string) []protocol.Diagnostic {
 	if s.workspace != nil {
 		external.Accounts = s.workspace.GetDeclaredAccounts()
 		external.Commodities = s.workspace.GetDeclaredCommodities()
+	}
+	// the files the document includes declare accounts and commodities for it as well
+	if resolved != nil && len(resolved.Files) > 0 {
+		accounts := make(map[string]bool)
+		commodities := make(map[string]bool)
+		for name := range external.Accounts {
+			accounts[name] = true
+		}
+		for symbol := range external.Commodities {
+			commodities[symbol] = true
+		}
+		for _, included := range resolved.Files {
+			if included == nil {
+				continue
+			}
+			for _, dir := range included.Directives {
+				switch d := dir.(type) {
+				case ast.AccountDirective:
+					accounts[d.Account.Name] = true
+				case ast.CommodityDirective:
+					commodities[d.Commodity.Symbol] = true
+				}
+			}
+		}
+		external.Accounts = accounts
+		external.Commodities = commodities
 	}
 
 	var result *analyzer.AnalysisResult
